@@ -82,14 +82,14 @@ def snapshot(model) -> dict:
                     continue
                 if not all(math.isfinite(x) for x in arr):
                     Q[key] = {'k': 'n', 'n': len(arr), 'first': 'undef', 'mean': 'undef', 'max': 'undef', 'min': 'undef', 'last': 'undef',
-                              'sum': 'undef'}
+                              'sum': 'undef', 'absmean': 'undef'}
                     if len(arr) <= MAX_SERIES:
                         S[key] = [rat(Fraction(x)) if math.isfinite(x) else 'undef' for x in arr]
                     continue
                 fr = [Fraction(x) for x in arr]
                 tot = sum(fr)
                 Q[key] = {'k': 'n', 'n': len(arr), 'first': rat(fr[0]), 'last': rat(fr[-1]), 'mean': rat(tot / len(fr)), 'sum': rat(tot),
-                          'max': rat(max(fr)), 'min': rat(min(fr))}
+                          'max': rat(max(fr)), 'min': rat(min(fr)), 'absmean': rat(sum(abs(x) for x in fr) / len(fr))}
                 if len(arr) <= SHORT:
                     Q[key]['l'] = [rat(x) for x in fr]
                 if len(arr) <= MAX_SERIES:
@@ -261,6 +261,9 @@ def build_jobs(tier: str) -> list:
         if k % 11 == 0:
             q['Do S-DAC-GT Calculations'] = 'True'
             tag += '+sdac'
+        if k % 4 == 1:
+            gen.add_restated_sentinels(q, rng)
+            tag += '+sentinel'
         jobs.append((tag, gen.to_text(q)))
     for name, text in sim.example_inputs().items():
         if name.startswith(('Beckers', 'example6', 'example7', 'MC_')):
